@@ -46,7 +46,7 @@ int __wrap_regexec(const regex_t *preg, const char *s, size_t nmatch, regmatch_t
 #define VFD0 1000          /* clients 1000.., device sockets 2000.. */
 #define DFD0 2000
 #define MAXFD 4096
-static int nacc = 0, nsock = 0, k_acc = 0, k_connect = 0, k_soerr = 0;
+static int nacc = 0, nsock = 0, k_acc = 0, k_connect = 0, k_soerr = 0; static long k_hup = -1;
 static struct { int rev, rk, cap, len, off, reads, readres, wlen, werr, wblock, writes, blocking; unsigned char data[4096], w[1<<17]; } K[MAXFD];
 #define KK(fd) (&K[(fd) - VFD0])
 int __real_close(int fd); ssize_t __real_read(int, void *, size_t); ssize_t __real_write(int, const void *, size_t); int __real_fcntl(int fd, int cmd, ...);
@@ -81,11 +81,16 @@ ssize_t __wrap_write(int fd, const void *b, size_t n){ if (fd < VFD0) return __r
     if (k->blocking) { if ((size_t)k->cap < n) { k->wblock = 1; k->cap = 0; } else k->cap -= n; }   /* capacity is per pass, a wrapped cbuf issues two calls */
     else { if ((size_t)k->cap == 0) { errno = EAGAIN; return -1; } if (m > (size_t)k->cap) m = k->cap; k->cap -= m; }
     memcpy(k->w + k->wlen, b, m); k->wlen += m; return m; }
+int __real_poll(struct pollfd *fds, nfds_t n, int tmo);
 int __wrap_poll(struct pollfd *fds, nfds_t n, int tmo){ int r = 0;
     for (int want = LFD; want < DFD0 + 1000 + 2*npair; want++) for (nfds_t i = 0; i < n; i++) if (fds[i].fd == want)
         printf("O interest %d %d\n", fds[i].fd, ((fds[i].events & POLLIN) ? 1 : 0) | ((fds[i].events & POLLOUT) ? 2 : 0));
     printf("O polltmo %d\n", tmo);
-    for (nfds_t i = 0; i < n; i++) { int v = fds[i].fd == LFD ? (k_acc ? 1 : 0) : fds[i].fd >= VFD0 ? KK(fds[i].fd)->rev : 0;
+    if (k_hup >= 0) { long d = k_hup; k_hup = -1; raise(SIGHUP); vt_us += d; errno = EINTR; return -1; }   /* SIGHUP (caught, no-op) after d us of sleep */
+    for (nfds_t i = 0; i < n; i++) {
+        if (fds[i].fd != LFD && fds[i].fd < VFD0) {   /* a real descriptor (the daemon's exit pipe): ask the real kernel, without waiting */
+            struct pollfd one = fds[i]; one.revents = 0; __real_poll(&one, 1, 0); fds[i].revents = one.revents; if (one.revents) r++; continue; }
+        int v = fds[i].fd == LFD ? (k_acc ? 1 : 0) : fds[i].fd >= VFD0 ? KK(fds[i].fd)->rev : 0;
         short f = 0; if ((v & 1) && (fds[i].events & POLLIN)) f |= POLLIN; if ((v & 2) && (fds[i].events & POLLOUT)) f |= POLLOUT; if (v & 4) f |= POLLHUP; if (v & 8) f |= POLLERR; if (v & 16) f |= POLLNVAL;
         fds[i].revents = f; if (f) r++; }
     return r; }
@@ -141,11 +146,59 @@ static void dump(struct timeval *tv){
     if (tv) { if (timerisset(tv)) printf("O tmo %ld\n", (long)tv->tv_sec*1000000L + tv->tv_usec); else printf("O tmo none\n"); }
 }
 
-int main(int ac, char**av){
-    setvbuf(stdout, NULL, _IOFBF, 1 << 20);
-    err_init("udmn"); dev_init(false); cli_init(); conf_init(av[1]);
+
+/* ---- the real powermand.c: main(), _select_loop(), the exit pipe and its signal handlers run as written.  Only cli_start() is
+   replaced (the listener is descriptor LFD of the simulated kernel); the harness gets control where the daemon blocks: in xpoll(). */
+static void harness_cli_start(bool use_stdio);
+#define main pm_main
+#define cli_start harness_cli_start
+#include "powermand.c"
+#undef main
+#undef cli_start
+
+static char line[1<<20];
+static int last_op = 0;         /* 0: nothing yet, 'I', 'P' */
+static int signalled = 0;
+#define EACHK(i) for (int i = 0; i < MAXFD; i++) { if (i >= nacc && i < DFD0 - VFD0) { i = DFD0 - VFD0 - 1; continue; } if (i >= DFD0 - VFD0 + 1000 + 2*npair) break; if (i >= DFD0 - VFD0 + nsock && i < DFD0 - VFD0 + 1000) { i = DFD0 - VFD0 + 999; continue; }
+
+/* read the next op and install the kernel's answers for the pass it describes.  I now connect soerr | P now acc connect soerr fd:rev:rk:hex:cap ... |
+   Q [now acc connect soerr fd:...] : a termination signal arrives while the daemon sleeps in poll (with whatever else is ready) */
+static int read_op(void){
+    if (!fgets(line, sizeof line, stdin)) { fflush(stdout); _exit(0); }
+    char op = line[0];
+    EACHK(i) K[i].rev = 0; K[i].rk = 0; K[i].cap = 1 << 30; K[i].len = K[i].off = K[i].reads = K[i].readres = K[i].wlen = K[i].werr = K[i].wblock = K[i].writes = 0; }
+    k_acc = 0; k_hup = -1;
+    char *tok = strtok(line + 1, " \n");
+    if (tok) { long now = atol(tok); vt_us = 1000000000L + now;
+        if (op != 'I') { tok = strtok(NULL, " \n"); k_acc = atoi(tok); }
+        tok = strtok(NULL, " \n"); k_connect = atoi(tok); tok = strtok(NULL, " \n"); k_soerr = atoi(tok);
+        while ((tok = strtok(NULL, " \n"))) { int fd, rev, rk, cap; static char hex[8300];
+            if (tok[0] == 'H') { k_hup = atol(tok + 1); vt_us -= k_hup; continue; }    /* H<d>: the sleep is interrupted by SIGHUP d us after it began; `now` is the time poll finally returns */
+            sscanf(tok, "%d:%d:%d:%8200[^:]:%d", &fd, &rev, &rk, hex, &cap);
+            typeof(K[0]) *k = KK(fd); k->rev = rev; k->rk = rk; k->cap = cap; k->len = unhex(hex, k->data); } }
+    return op;
+}
+static void end_of_pass(struct timeval *tv){
+    logrx = 0;
+    EACHK(i)
+        if (K[i].reads) printf("Y read %d %d\n", VFD0 + i, K[i].readres);
+        if (K[i].writes) { printf("Y write %d ", VFD0 + i); hexout(K[i].w, K[i].wlen); printf(" %s%s\n", K[i].werr ? "E" : "ok", K[i].wblock ? " BLOCKS" : ""); } }
+    static struct timeval none; timerclear(&none);
+    dump(last_op == 'P' ? (tv ? tv : &none) : NULL); printf(".\n"); fflush(stdout);
+}
+/* the daemon is about to sleep: the pass that just ended is reported, the next op says what wakes it up */
+int __real_xpoll(xpollfd_t pfd, struct timeval *tv);
+int __wrap_xpoll(xpollfd_t pfd, struct timeval *tv){
+    end_of_pass(tv);
+    int op = read_op();
+    if (op == 'Q') { signalled = 1; raise(SIGTERM); }     /* the real handler writes to the real exit pipe */
+    else last_op = 'P';
+    logrx = 1;
+    return __real_xpoll(pfd, tv);
+}
+static const char *disp(int sig){ struct sigaction sa; sigaction(sig, NULL, &sa); return sa.sa_handler == SIG_IGN ? "ign" : sa.sa_handler == SIG_DFL ? "dfl" : "handler"; }
+static void harness_cli_start(bool use_stdio){
     listen_fds = (int *)xmalloc(sizeof(int)); listen_fds[0] = LFD; listen_fds_len = 1;
-    xpollfd_t pfd = xpollfd_create(); struct timeval tmout; timerclear(&tmout);
     { ListIterator di = list_iterator_create(dev_getdevices()); Device *dev;
       while ((dev = list_next(di))) {
         printf("DEV "); hexout((unsigned char*)dev->name, strlen(dev->name)); printf(" %d\n", dev->connect == tcp_connect ? 0 : 1);
@@ -162,36 +215,20 @@ int main(int ac, char**av){
         hostlist_iterator_destroy(hi); printf("\n"); }
       list_iterator_destroy(ai); }
     printf("V "); hexout((unsigned char*)PACKAGE_VERSION, strlen(PACKAGE_VERSION)); printf("\n");
+    /* harness-only: what main() installed before it got here */
+    printf("I sig TERM %s INT %s HUP %s PIPE %s\n", disp(SIGTERM), disp(SIGINT), disp(SIGHUP), disp(SIGPIPE));
     printf("READY\n"); fflush(stdout);
-    static char line[1<<20];
-    while (fgets(line, sizeof line, stdin)) {
-        char op = line[0];
-        if (op == 'Q') {   /* what main() does after _select_loop() returns: cli_fini, dev_fini, conf_fini */
-            logrx = 0;
-            cli_fini(); dev_fini(); conf_fini();
-            xpollfd_destroy(pfd);
-            printf("O teardown\n.\n"); fflush(stdout);
-            break;
-        }
-        /* I now connect soerr   |   P now acc connect soerr fd:rev:rk:hex:cap ... */
-        char *tok = strtok(line + 2, " \n"); long now = atol(tok); vt_us = 1000000000L + now;
-        if (op == 'P') { tok = strtok(NULL, " \n"); k_acc = atoi(tok); }
-        tok = strtok(NULL, " \n"); k_connect = atoi(tok); tok = strtok(NULL, " \n"); k_soerr = atoi(tok);
-        for (int i = 0; i < MAXFD; i++) { if (i >= nacc && i < DFD0 - VFD0) { i = DFD0 - VFD0 - 1; continue; } if (i >= DFD0 - VFD0 + 1000 + 2*npair) break; if (i >= DFD0 - VFD0 + nsock && i < DFD0 - VFD0 + 1000) { i = DFD0 - VFD0 + 999; continue; }
-            K[i].rev = 0; K[i].rk = 0; K[i].cap = 1 << 30; K[i].len = K[i].off = K[i].reads = K[i].readres = K[i].wlen = K[i].werr = K[i].wblock = K[i].writes = 0; }
-        while ((tok = strtok(NULL, " \n"))) { int fd, rev, rk, cap; static char hex[8300]; sscanf(tok, "%d:%d:%d:%8200[^:]:%d", &fd, &rev, &rk, hex, &cap);
-            typeof(K[0]) *k = KK(fd); k->rev = rev; k->rk = rk; k->cap = cap; k->len = unhex(hex, k->data); }
-        logrx = 1;
-        if (op == 'I') dev_initial_connect();
-        else { /* body of _select_loop */
-            xpollfd_zero(pfd); cli_pre_poll(pfd); dev_pre_poll(pfd);
-            xpoll(pfd, timerisset(&tmout) ? &tmout : NULL); timerclear(&tmout);
-            cli_post_poll(pfd); dev_post_poll(pfd, &tmout); }
-        logrx = 0;
-        for (int i = 0; i < MAXFD; i++) { if (i >= nacc && i < DFD0 - VFD0) { i = DFD0 - VFD0 - 1; continue; } if (i >= DFD0 - VFD0 + 1000 + 2*npair) break; if (i >= DFD0 - VFD0 + nsock && i < DFD0 - VFD0 + 1000) { i = DFD0 - VFD0 + 999; continue; }
-            if (K[i].reads) printf("Y read %d %d\n", VFD0 + i, K[i].readres);
-            if (K[i].writes) { printf("Y write %d ", VFD0 + i); hexout(K[i].w, K[i].wlen); printf(" %s%s\n", K[i].werr ? "E" : "ok", K[i].wblock ? " BLOCKS" : ""); } }
-        dump(op == 'P' ? &tmout : NULL); printf(".\n"); fflush(stdout);
-    }
+    int op = read_op();            /* the answers for dev_initial_connect(): must be the I op */
+    if (op != 'I') { fprintf(stderr, "harness: first op must be I\n"); _exit(3); }
+    last_op = 'I'; logrx = 1;
+}
+
+int main(int ac, char**av){
+    setvbuf(stdout, NULL, _IOFBF, 1 << 20);
+    char *args[] = { "udmn", "-c", av[1], NULL };
+    int rc = pm_main(3, args);      /* returns when _select_loop() was left through the exit pipe and cli_fini/dev_fini/conf_fini ran */
+    logrx = 0;
+    printf("I exit %d signalled %d\n", rc, signalled);
+    printf("O teardown\n.\n"); fflush(stdout);
     return 0;
 }
